@@ -11,8 +11,16 @@
 Python equivalents of Engineering library functions
 """
 import functools
+import re
 
-from pycel.excelutil import EMPTY, ERROR_CODES, flatten, NUM_ERROR, VALUE_ERROR
+from pycel.excelutil import (
+    coerce_to_number,
+    EMPTY,
+    ERROR_CODES,
+    flatten,
+    NUM_ERROR,
+    VALUE_ERROR,
+)
 from pycel.lib.function_helpers import (
     excel_math_func,
 )
@@ -20,6 +28,11 @@ from pycel.lib.function_helpers import (
 
 _SIZE_MASK = {2: 512, 8: 0x20000000, 16: 0x8000000000}
 _BASE_TO_FUNC = {2: bin, 8: oct, 16: hex}
+_BASE_DIGITS_RE = {
+    2: re.compile(r'[01]{1,10}'),
+    8: re.compile(r'[0-7]{1,10}'),
+    16: re.compile(r'[0-9A-Fa-f]{1,10}'),
+}
 
 
 def _base2dec(value, base):
@@ -37,7 +50,8 @@ def _base2dec(value, base):
         if int(value) == value:
             value = str(int(value))
 
-    if isinstance(value, str) and len(value) <= 10:
+    # int() would also accept signs, blanks, '_' and '0b'/'0o'/'0x' prefixes
+    if isinstance(value, str) and _BASE_DIGITS_RE[base].fullmatch(value):
         try:
             value, mask = int(value, base), _SIZE_MASK[base]
             if value >= 0:
@@ -61,9 +75,14 @@ def _dec2base(value, places=None, base=16):
             return NUM_ERROR
         value = 0
 
+    if isinstance(value, str):
+        value = coerce_to_number(value)
+        if isinstance(value, str):
+            return VALUE_ERROR
+
     try:
         value = int(value)
-    except ValueError:
+    except ValueError:  # pragma: no cover
         return VALUE_ERROR
 
     mask = _SIZE_MASK[base]
